@@ -3,8 +3,10 @@ pub mod api;
 pub mod c02;
 pub mod c05;
 pub mod c06;
+pub mod c09;
 pub mod client;
 pub mod evlog;
+pub mod live;
 pub mod gen;
 pub mod model;
 pub mod panics;
